@@ -3,6 +3,7 @@ package c18
 
 import (
 	"fmt"
+	"os"
 	"regexp"
 	"runtime"
 	"sort"
@@ -37,6 +38,7 @@ type Act struct {
 	Node   uint64     `json:"node,omitempty"`
 	Slot   int        `json:"slot,omitempty"`
 	Nodes  [][]uint64 `json:"nodes,omitempty"`
+	Repl   int        `json:"repl,omitempty"` // create: replication factor (partitions with fewer nodes are under-replicated: the allocator proposes joining peers for them)
 }
 
 func (a Act) String() string {
@@ -59,6 +61,14 @@ type Case struct {
 	Loop []Act `json:"loop"`
 	// Join is a second goroutine adding peers (NodesManager.tryJoin at start-up).
 	Join []Act `json:"join"`
+	// Commit: the zero group accepts what this node proposes (the allocator's replica-set changes) and the ready
+	// loop applies each proposal Lag steps after it first sees it, i.e. behind entries that were already in the log.
+	// Without it every proposal fails at once (a node that knows no leader).
+	Commit bool `json:"commit,omitempty"`
+	Lag    int  `json:"lag,omitempty"`
+	// Late (with Commit): the proposing goroutine is descheduled after it handed its proposal over and runs again only
+	// when the ready loop has applied it.
+	Late bool `json:"late,omitempty"`
 }
 
 func genCase(t *rapid.T) Case {
@@ -74,6 +84,7 @@ func genCase(t *rapid.T) Case {
 			a.Slot = rapid.IntRange(0, 7).Draw(t, "slot")
 			a.Nodes = rapid.SliceOfN(nodeSet, 1, 8).Draw(t, "nodes")
 			a.Poison = rapid.IntRange(0, 5).Draw(t, "poison") == 0
+			a.Repl = rapid.SampledFrom([]int{1, 1, 2, 3}).Draw(t, "repl")
 		case ActDelete:
 			a.Slot = rapid.IntRange(0, 7).Draw(t, "slot")
 		}
@@ -85,7 +96,11 @@ func genCase(t *rapid.T) Case {
 		}
 		return Act{K: ActAddNode, Node: node.Draw(t, "n")}
 	})
-	return Case{Loop: rapid.SliceOfN(act, 4, pbt.Pick(40, 80)).Draw(t, "loop"), Join: rapid.SliceOfN(joinAct, 0, 20).Draw(t, "join")}
+	c := Case{Loop: rapid.SliceOfN(act, 4, pbt.Pick(40, 80)).Draw(t, "loop"), Join: rapid.SliceOfN(joinAct, 0, 20).Draw(t, "join")}
+	c.Commit = rapid.IntRange(0, 2).Draw(t, "commit") > 0
+	c.Lag = rapid.IntRange(0, 3).Draw(t, "lag")
+	c.Late = rapid.IntRange(0, 3).Draw(t, "late") == 0
+	return c
 }
 
 type corruptWAL struct{ wal.WAL }
@@ -94,7 +109,7 @@ func (c corruptWAL) InitialState() (raftpb.HardState, raftpb.ConfState, error) {
 	return raftpb.HardState{Term: 1, Commit: 3}, raftpb.ConfState{}, nil
 }
 
-var cyclePat = regexp.MustCompile(`Allocator\)\.(watch|unwatch)|Allocator\)\.(addNodeToPartitions|removeNodeFromPartitions)|Conn\)\.sendNodesChangeNotification|Conn\)\.(AddNode|RemoveNode|NodeIds)`)
+var cyclePat = regexp.MustCompile(`Allocator\)\.(watch|unwatch)|Allocator\)\.(addNodeToPartitions|removeNodeFromPartitions|runNodeChanges)|Conn\)\.sendNodesChangeNotification|Conn\)\.(AddNode|RemoveNode|NodeIds)`)
 
 // runOnce executes the program; returns "" if everything completed, else a
 // description of the stall including the blocked repository frames.
@@ -117,13 +132,38 @@ func runOnce(c Case, stallAfter time.Duration, o *pbt.Obs) (stall string, pendin
 	})
 	defer storage.VerifSetWALWrapper(nil)
 	r := catalog.NewReplica("node", self, []uint64{self})
+	r.G.Commit, r.G.Late = c.Commit, c.Commit && c.Late
 	m := catalog.Model{}
 	ever := map[int]bool{}
 	done := make(chan struct{}, 2)
+	joinDone := make(chan struct{})
 	progress := make(chan string, 1024)
+	// proposals this node made (the allocator's replica-set changes) that the zero group accepted: the ready loop
+	// applies each one c.Lag steps after it first sees it - entries that were in the log before it come first
+	type due struct {
+		at int
+		p  catalog.Pending
+	}
+	var queue []due
+	applied := 0
+	applyDue := func(i int, all bool) {
+		if c.Commit {
+			electLoaded(r)
+		}
+		for _, p := range r.G.TakePending() {
+			queue = append(queue, due{i + c.Lag, p})
+		}
+		for len(queue) > 0 && (all || queue[0].at <= i) {
+			_ = r.G.Process(queue[0].p.Data)
+			queue[0].p.Applied()
+			queue = queue[1:]
+			applied++
+		}
+	}
 	go func() {
 		defer func() { done <- struct{}{} }()
 		for i, a := range c.Loop {
+			applyDue(i, false)
 			switch a.K {
 			case ActAddNode:
 				r.Conn.AddNode(a.Node, "127.0.0.1:9")
@@ -134,7 +174,7 @@ func runOnce(c Case, stallAfter time.Duration, o *pbt.Obs) (stall string, pendin
 					continue
 				}
 				ever[a.Slot] = true
-				op := catalog.Op{K: catalog.OpCreate, Slot: a.Slot, Dim: 2, Nodes: a.Nodes}
+				op := catalog.Op{K: catalog.OpCreate, Slot: a.Slot, Dim: 2, Nodes: a.Nodes, Repl: a.Repl}
 				_ = r.G.Process(catalog.Marshal(op, i, m))
 				catalog.ApplyModel(m, op)
 			case ActDelete:
@@ -153,9 +193,58 @@ func runOnce(c Case, stallAfter time.Duration, o *pbt.Obs) (stall string, pendin
 		op := catalog.Op{K: catalog.OpCreate, Slot: 99, Dim: 2, Nodes: [][]uint64{{6001}}}
 		_ = r.G.Process(catalog.Marshal(op, 9000, m))
 		r.Conn.AddNode(7777, "127.0.0.1:9")
+		// the ready loop goes on applying what gets committed until the node is idle, then the node is shut down
+		<-joinDone
+		for k := 0; k < 3; k++ {
+			applyDue(0, true)
+			r.Flush()
+		}
+		applyDue(0, true)
+		// third probe: the allocator still reacts to membership changes - a peer joining while this node leads an
+		// under-replicated partition makes it propose a replica for that partition (the joiner, or an earlier
+		// joiner whose notification it had not handled yet)
+		probe := catalog.Op{K: catalog.OpCreate, Slot: 98, Dim: 2, Nodes: [][]uint64{{self}}, Repl: 2}
+		_ = r.G.Process(catalog.Marshal(probe, 9001, m))
+		r.Conn.AddNode(7778, "127.0.0.1:9")
+		select {
+		case progress <- "probes: create + AddNode done, waiting for the allocator to propose the joiner for the under-replicated partition it leads":
+		default:
+		}
+		blockedSince := time.Time{}
+		for n := 0; !r.G.ProposedNodeChange(catalog.DatasetID(98)); n++ {
+			applyDue(0, true)
+			time.Sleep(100 * time.Microsecond)
+			if n%100 == 99 {
+				// the worker may be inside a proposal to a partition's own raft group that has no leader (a group
+				// that is still electing, or one that lost its quorum when a peer that does not exist was added to
+				// it): that wait is raft's, it ends when the group gets a leader or is stopped, and it is not what
+				// the property is about - the third probe is skipped
+				electLoaded(r)
+				if workerInsidePartitionGroupProposal() {
+					if blockedSince.IsZero() {
+						blockedSince = time.Now()
+					} else if time.Since(blockedSince) > 150*time.Millisecond {
+						o.Label("third-probe-skipped:allocator-worker-waits-for-a-partition-group-without-leader")
+						break
+					}
+				} else {
+					blockedSince = time.Time{}
+				}
+			}
+		}
+		for k := 0; k < 2; k++ {
+			applyDue(0, true)
+			r.Flush()
+		}
+		applyDue(0, true)
+		if applied > 0 {
+			o.Label("the-ready-loop-applied-replica-set-changes-proposed-by-the-allocator")
+		}
+		r.Close()
 	}()
 	go func() {
 		defer func() { done <- struct{}{} }()
+		defer close(joinDone)
 		for _, a := range c.Join {
 			if a.K == ActYield {
 				runtime.Gosched()
@@ -189,8 +278,28 @@ func runOnce(c Case, stallAfter time.Duration, o *pbt.Obs) (stall string, pendin
 			return fmt.Sprintf("no progress for %v; last completed: %s; repository goroutines parked in blocking waits, identical 2 s later=%v: %s", stallAfter, last, confirmed, strings.Join(d2, " | ")), confirmed
 		}
 	}
-	r.Close()
 	return "", false
+}
+
+// electLoaded makes every partition group loaded on the node campaign if it has no leader yet (single-member groups
+// elect themselves at once instead of after a second of real ticks).
+func electLoaded(r *catalog.Replica) {
+	for _, g := range r.Tr.VerifGroups() {
+		if st := g.VerifStatus(); st.Lead == 0 {
+			g.VerifCampaign()
+		}
+	}
+}
+
+func workerInsidePartitionGroupProposal() bool {
+	buf := make([]byte, 4<<20)
+	buf = buf[:runtime.Stack(buf, true)]
+	for _, g := range strings.Split(string(buf), "\n\n") {
+		if strings.Contains(g, "Allocator).runNodeChanges") && (strings.Contains(g, "RaftGroup).ProposeJoin") || strings.Contains(g, "RaftGroup).ProposeLeave")) {
+			return true
+		}
+	}
+	return false
 }
 
 var gHeader = regexp.MustCompile(`^goroutine (\d+) \[([^\],]+)`)
@@ -217,6 +326,9 @@ func parked() []string {
 		}
 		if len(fs) == 0 {
 			continue
+		}
+		if os.Getenv("VERIF_DEBUG") != "" {
+			fmt.Println("PARKED-DEBUG:\n" + g)
 		}
 		switch m[2] {
 		case "chan send", "chan receive", "semacquire", "sync.Mutex.Lock", "sync.RWMutex.RLock", "sync.RWMutex.Lock", "select", "sync.Cond.Wait":
@@ -275,7 +387,7 @@ func check(c Case, o *pbt.Obs) *pbt.Failure {
 func TestControlPlaneNeverWedges(t *testing.T) {
 	pbt.Run(t, pbt.Prop[Case]{
 		ID: "C18", Name: "TestControlPlaneNeverWedges",
-		Rule:  "rapid-generated programs on real Allocator + Conn + DatasetManager objects (scripted zero group): one goroutine plays the zero group's ready loop and performs, in generated order, Conn.AddNode/RemoveNode (as processConfChange does) and catalogue applies (create datasets with 1-8 partitions incl. partitions placed on this node, delete datasets; one create in six gets corrupt local log stores so that loading their raft groups panics, which the allocator loop must survive); a second goroutine adds up to 20 peers (join at start-up); then a probe create and a probe AddNode must complete. A stall is reported only if nothing completes for 10 s and the goroutine dump shows the program's repository goroutines all parked in blocking waits inside Allocator.watch/unwatch/addNodeToPartitions/removeNodeFromPartitions or Conn notification code, unchanged in a second dump 2 s later (a dead state); otherwise the case is counted inconclusive. non-trivial = the loop mixes membership changes with catalogue applies; distinct = distinct case JSON",
+		Rule:  "rapid-generated programs on real Allocator + Conn + DatasetManager objects (scripted zero group): one goroutine plays the zero group's ready loop and performs, in generated order, Conn.AddNode/RemoveNode (as processConfChange does) and catalogue applies (create datasets with 1-8 partitions incl. partitions placed on this node, delete datasets; one create in six gets corrupt local log stores so that loading their raft groups panics, which the allocator loop must survive); a second goroutine adds up to 20 peers (join at start-up); in two thirds of the cases the scripted zero group accepts the allocator's own proposals (replica-set changes for partitions it leads) and the ready-loop goroutine applies each one 0-3 steps after it first sees it, i.e. behind entries that were ahead of it in the log; in a quarter of those the proposing goroutine runs again only once its proposal has been applied; then a probe create and a probe AddNode must complete, and after a further peer joins the allocator must propose it for an under-replicated partition this node leads. A stall is reported only if nothing completes for 10 s and the goroutine dump shows the program's repository goroutines all parked in blocking waits inside Allocator.watch/unwatch/addNodeToPartitions/removeNodeFromPartitions or Conn notification code, unchanged in a second dump 2 s later (a dead state); otherwise the case is counted inconclusive. non-trivial = the loop mixes membership changes with catalogue applies; distinct = distinct case JSON",
 		Gen:   genCase,
 		Check: check,
 	})
